@@ -435,7 +435,7 @@ PREDS['C18'] = viol_C18
 GENS['C18'] = gen_text_cases
 
 
-SCENARIO_PROPS = ('C01', 'C02', 'C03', 'C04', 'C05', 'C06', 'C07', 'C09', 'C12', 'C14', 'C15', 'C20')
+SCENARIO_PROPS = ('C01', 'C02', 'C03', 'C04', 'C05', 'C06', 'C07', 'C09', 'C10', 'C12', 'C14', 'C15', 'C20')
 
 
 def evaluate(case, replay_kind, out):
